@@ -10,10 +10,10 @@
             S2  if ok { go poll; go handle }    S3   readWg.Wait()
             S4  queueStore.Close(); pl.close()  S5   wg.Wait()
             S6  rwc.Close()                     S7   internalClose: close(closed)     S8 done
-     read   R0  ReadPacket (socket)   R1  in <- packet     R2  <-connected
+     read   R0  ReadPacket (socket)   R1  select { in <- packet ; <-close (packet dropped) }     R2  <-connected
             R3  setError (deferred)   R3q setError with a *codes.Error while connected (v5):
-                                          the Once body sends DISCONNECT through client.write
-            R3w inside the Once, blocked in client.write     R4  close(in)      R5 exited
+                                          the Once body offers a DISCONNECT to `out` without blocking
+            R4  close(in)      R5 exited
      write  W0  select { <-close ; p := <-out }   W1 writePacket (socket)
             W2  setError (deferred)               W3 exited
      poll   P0  waiting for ids/messages (cond.Wait; woken by queueStore.Close / pl.close)
@@ -21,14 +21,17 @@
             P2  setError (deferred)               P3 exited          (PN = never started)
      handle H0  p := <-in (range)     H1  handler      H2  client.write(response)
             H1b handler, after its write
-            H3  setError   H3q setError with *codes.Error (DISCONNECT is sent)   H3w in the Once
+            H3  setError   H3q setError with *codes.Error (DISCONNECT is offered to `out`)
             H4  exited                                                  (HN = never started)
 
    Channels: `in` and `out` are counters up to `cap` (abstraction of the buffer of 8: cap = 1,
    i.e. empty / non-empty = full), `in` can be closed; `close`, `connected`, `closed` are
-   closed-flags.  `latch` is client.errOnce: 0 = not run, 1 = a goroutine is inside the Once
-   body (blocked in client.write), 2 = done - a second caller of setError WAITS while it is 1
-   (sync.Once.Do returns only when the first call has returned).
+   closed-flags.  `latch` is client.errOnce: 0 = not run, 2 = done.  Since b002260 the Once body
+   does not block (the v5 DISCONNECT is offered to `out` with `select { case out <- d: default: }`),
+   so it is one atomic step of the model; before that repair it could block in client.write
+   while the writer waited for the Once (value 1 of the latch; finding kf_once_blocked_on_out,
+   repaired).  Since 6670bb6 readLoop hands a packet over with
+   `select { case in <- packet: case <-close: }` (finding kf_reader_blocked_on_in, repaired).
 
    Environment: the peer delivers at most `rx` packets and the queue at most `msgs` messages
    (budgets in the state - the bound of the model); a socket read can always fail (peer hangs
@@ -36,7 +39,7 @@
    model leaves out: blocking on locks (Model/LockOrder.v), the other connections
    (lockDuplicatedID waits for the OLD client's `closed`), timers other than the connect
    timeout. *)
-From Coq Require Import List Arith Bool PArith.
+From Coq Require Import List Arith Bool.
 Import ListNotations.
 
 Definition cap : nat := 1.
@@ -45,11 +48,11 @@ Definition cap : nat := 1.
 Definition S1 := 1. Definition S1f := 2. Definition S1c := 3. Definition S2 := 4. Definition S3 := 5.
 Definition S4 := 6. Definition S5 := 7. Definition S6 := 8. Definition S7 := 9. Definition S8 := 10.
 Definition R0 := 0. Definition R1 := 1. Definition R2 := 2. Definition R3 := 3. Definition R3q := 4.
-Definition R3w := 5. Definition R4 := 6. Definition R5 := 7.
+Definition R4 := 6. Definition R5 := 7.
 Definition W0 := 0. Definition W1 := 1. Definition W2 := 2. Definition W3 := 3.
 Definition PN := 0. Definition P0 := 1. Definition P1 := 2. Definition P2 := 3. Definition P3 := 4.
 Definition HN := 0. Definition H0 := 1. Definition H1 := 2. Definition H2 := 3. Definition H1b := 4.
-Definition H3 := 5. Definition H3q := 6. Definition H3w := 7. Definition H4 := 8.
+Definition H3 := 5. Definition H3q := 6. Definition H4 := 8.
 
 Record st := mk_st {
   pS : nat; pR : nat; pW : nat; pP : nat; pH : nat;
@@ -88,29 +91,22 @@ Definition setMsgs s v := mk_st (pS s) (pR s) (pW s) (pP s) (pH s) (inN s) (inCl
 
 Definition when {A} (b : bool) (l : list A) : list A := if b then l else [].
 
-(* setError without a DISCONNECT to send (client.errOnce.Do): first caller closes `close`;
-   a later caller passes when the Once is done and WAITS while another goroutine is inside.
+(* setError (client.errOnce.Do): the first caller closes `close`; a later caller passes.
    `k` moves the caller's program counter. *)
 Definition set_error_plain (s : st) (k : st -> st) : list st :=
   match latch s with
   | 0 => [k (setClose (setLatch s 2) true)]
-  | 1 => []
   | _ => [k s]
   end.
 
-(* setError with a DISCONNECT: the first caller enters the Once (latch 1) and goes to its
-   "in the Once" pc `kw`; others as above with `k`. *)
-Definition set_error_disc (s : st) (kw k : st -> st) : list st :=
+(* setError with a *codes.Error on a connected v5 client: the first caller offers a DISCONNECT to
+   `out` WITHOUT blocking (`select { case out <- d: default: }`), then closes `close` *)
+Definition set_error_disc (s : st) (k : st -> st) : list st :=
   match latch s with
-  | 0 => [kw (setLatch s 1)]
-  | 1 => []
+  | 0 => let s' := if Nat.ltb (outN s) cap then setOut s (S (outN s)) else s in
+         [k (setClose (setLatch s' 2) true)]
   | _ => [k s]
   end.
-
-(* inside the Once: client.write(DISCONNECT) = select { <-close ; out <- p }; `close` is still
-   open here (only the Once body closes it), so the send needs room in `out`; then close(close) *)
-Definition once_write (s : st) (k : st -> st) : list st :=
-  when (Nat.ltb (outN s) cap) [k (setClose (setLatch (setOut s (S (outN s))) 2) true)].
 
 (* client.write(p): select { <-close: return ; out <- p } *)
 Definition client_write (s : st) (k : st -> st) : list st :=
@@ -146,10 +142,10 @@ Definition step_read (s : st) : list st :=
       ++ [setR s R3]                                   (* read error / EOF / deadline *)
       ++ when (okc s && sock s && Nat.ltb 0 (rx s)) [setR (setRx s (pred (rx s))) R3q]  (* receive quota exceeded *)
   | 1 (* R1 *) => when (Nat.ltb (inN s) cap) [setR (setIn s (S (inN s))) R2]
+                  ++ when (chClose s) [setR s R2]          (* <-close: the packet is dropped *)
   | 2 (* R2 *) => when (chConnected s) [setR s R0]
   | 3 (* R3 *) => set_error_plain s (fun s' => setR s' R4)
-  | 4 (* R3q *) => set_error_disc s (fun s' => setR s' R3w) (fun s' => setR s' R4)
-  | 5 (* R3w *) => once_write s (fun s' => setR s' R4)
+  | 4 (* R3q *) => set_error_disc s (fun s' => setR s' R4)
   | 6 (* R4 *) => [setR (setInClosed s true) R5]
   | _ => []
   end.
@@ -182,8 +178,7 @@ Definition step_handle (s : st) : list st :=
   | 3 (* H2 *) => client_write s (fun s' => setH s' H1b)
   | 4 (* H1b *) => [setH s H0; setH s H3] ++ when (okc s) [setH s H3q]
   | 5 (* H3 *) => set_error_plain s (fun s' => setH s' H4)
-  | 6 (* H3q *) => set_error_disc s (fun s' => setH s' H3w) (fun s' => setH s' H4)
-  | 7 (* H3w *) => once_write s (fun s' => setH s' H4)
+  | 6 (* H3q *) => set_error_disc s (fun s' => setH s' H4)
   | _ => []
   end.
 
@@ -196,13 +191,10 @@ Definition final (s : st) : bool :=
   && (Nat.eqb (pP s) PN || Nat.eqb (pP s) P3) && (Nat.eqb (pH s) HN || Nat.eqb (pH s) H4)
   && chClosed s.
 
-Definition stuck (s : st) : bool := match next s with [] => true | _ => false end.
-
-(* the two known ways to get stuck (known findings) *)
-(* D1: readLoop blocked in `client.in <- packet`: `in` is full and nothing will drain it *)
-Definition kf_reader_blocked_on_in (s : st) : bool := Nat.eqb (pR s) R1 && Nat.eqb (inN s) cap.
-(* D2: a goroutine is inside errOnce, blocked in client.write(DISCONNECT) with `out` full *)
-Definition kf_once_blocked_on_out (s : st) : bool := Nat.eqb (latch s) 1 && Nat.eqb (outN s) cap.
+(* the two blocked states of the code before 6670bb6 / b002260 (repaired findings), kept as state
+   predicates: the theorems say they are no longer blocked states *)
+(* readLoop wants to hand over a packet while `in` is full *)
+Definition reader_waits_on_full_in (s : st) : bool := Nat.eqb (pR s) R1 && Nat.eqb (inN s) cap.
 
 (* a measure that every transition decreases (checked by computation over the reachable set) *)
 Definition wA := 9. Definition wB := 6. Definition wC := 4. Definition wD := 2.
@@ -213,31 +205,20 @@ Definition rankS (s : st) : nat :=
   end.
 Definition rankR (s : st) : nat :=
   match pR s with
-  | 0 => wD + 5 | 1 => wD + wB + 7 | 2 => wD + 6 | 3 => 2 | 4 => wD + 4 | 5 => wD + 3 | 6 => 1 | _ => 0
+  | 0 => wD + 5 | 1 => wD + wB + 7 | 2 => wD + 6 | 3 => 2 | 4 => wD + 4 | 6 => 1 | _ => 0
   end.
 Definition rankW (s : st) : nat := match pW s with 0 => 2 | 1 => 3 | 2 => 1 | _ => 0 end.
 Definition rankP (s : st) : nat := match pP s with 1 => 2 | 2 => wD + 3 | 3 => 1 | _ => 0 end.
 Definition rankH (s : st) : nat :=
   match pH s with
-  | 1 => wD + 4 | 2 => 2 * wD + 7 | 3 => 2 * wD + 6 | 4 => wD + 5 | 5 => 1 | 6 => wD + 3 | 7 => wD + 2 | _ => 0
+  | 1 => wD + 4 | 2 => 2 * wD + 7 | 3 => 2 * wD + 6 | 4 => wD + 5 | 5 => 1 | 6 => wD + 3 | _ => 0
   end.
 
 Definition measure (s : st) : nat :=
   rx s * wA + inN s * wB + msgs s * wC + outN s * wD + rankS s + rankR s + rankW s + rankP s + rankH s.
 
-(* ------------------------------------------------------------------------------------ *)
-(* An injective code of states into positive numbers, for the visited set of the search. *)
-
+(* the fields of a state as a list of numbers (injective; used for the visited set) *)
 Definition fields (s : st) : list nat :=
   [pS s; pR s; pW s; pP s; pH s; inN s; Nat.b2n (inClosed s); outN s; Nat.b2n (chClose s);
    Nat.b2n (chConnected s); Nat.b2n (chClosed s); latch s; Nat.b2n (sock s); Nat.b2n (qclosed s);
    Nat.b2n (okc s); Nat.b2n (spawn s); rx s; msgs s].
-
-(* each number n as n one-bits followed by a zero-bit *)
-Fixpoint enc (l : list nat) : positive :=
-  match l with
-  | [] => xH
-  | n :: tl => Nat.iter n xI (xO (enc tl))
-  end.
-
-Definition code (s : st) : positive := enc (fields s).
